@@ -14,6 +14,7 @@ from harness import core
 from harness import coqemit as E
 from harness import fieldgen as G
 from harness import defgen as D
+from harness import c14lattice as L
 from harness.props import c12 as C12
 
 CLAUSE = {1: "fields-mono", 2: "required-mono", 3: "inherited-default"}
@@ -325,6 +326,23 @@ def inherited_clauses(rnd, prog, ns, fmaps, rep, report, n_vals):
     return n_eval
 
 
+def base_values(rnd, prog, ns, fmaps):
+    """class name -> python kwargs of a valid instance (None when none was found)."""
+    out = {}
+    for st in prog:
+        if st[0] != "def":
+            continue
+        cls = ns.get(st[1]["name"])
+        if cls is None:
+            continue
+        kw = C12.base_kwargs(rnd, cls, fmaps.get(st[1]["name"], {}))
+        try:
+            out[st[1]["name"]] = None if kw is None else {k: G.unreify(v, {}) for k, v in kw.items()}
+        except Exception:  # noqa
+            out[st[1]["name"]] = None
+    return out
+
+
 def required_key(prog, outs, step):
     """Key of a required-mono failure: is the lost name declared optional by an earlier base (MRO shadowing)?"""
     s = prog[step][1]
@@ -349,7 +367,7 @@ def required_key(prog, outs, step):
 
 
 def evaluate(cases, tag="c14"):
-    per = 60
+    per = max(12, min(60, -(-len(cases) // 16)))      # one shard per core
     shards = []
     for s in range(0, len(cases), per):
         items = [D.emit_case(p, o, g) for p, o, g in cases[s:s + per]]
@@ -411,6 +429,7 @@ def run(rep, tier):
         prog, outs, ns = run_steps(steps, guards)
         fm = D.field_ast_map(prog, ns)
         n = inherited_clauses(rnd, prog, ns, fm, rep, reporter(prog), n_vals)
+        n += L.mro_clauses(prog, ns, reporter(prog), base_values(rnd, prog, ns, fm))
         for st, o in zip(prog, outs):
             if st[0] == "def":
                 rep.count("hierarchy", 1, (len(st[1]["bases"]), len(st[1]["members"]), st[1]["required"] is not None,
@@ -420,6 +439,33 @@ def run(rep, tier):
                 rep.stat("hierarchy", "bases:%d" % len(st[1]["bases"]))
         rep.count("hierarchy:values", n)
         cases.append((prog, outs, guards))
+    # stream 1b: the lattice of hierarchy shapes x override positions x override kinds (enumerated)
+    for shape, sub, okinds, rd, steps in L.shape_programs(tier, core.seed()):
+        prog, outs, ns = run_steps(steps, (True, True))
+        fm = D.field_ast_map(prog, ns)
+        n = inherited_clauses(rnd, prog, ns, fm, rep, reporter(prog), n_vals)
+        n += L.mro_clauses(prog, ns, reporter(prog), base_values(rnd, prog, ns, fm))
+        last = outs[-1]
+        rep.count("shape-lattice", 1, (shape, tuple(sub), tuple(sorted(set(okinds.values()))), rd,
+                                       last[0] if last[0] != "raise" else last[1]))
+        rep.stat("shape-lattice", "shape:" + shape)
+        rep.stat("shape-lattice", "overriders:%d" % len(sub))
+        rep.stat("shape-lattice", "outcome:" + ("all-defined" if len(prog) == len(steps) and last[0] != "raise" else
+                                                "stopped-at-%s" % last[1]))
+        for k in set(okinds.values()):
+            rep.stat("shape-lattice", "kind:" + k)
+        rep.count("shape-lattice:values", n)
+        cases.append((prog, outs, (True, True)))
+    # stream 1c: the lattice of default faults: field spelling x default spelling x value x placement (enumerated)
+    probe = L.Probe()
+    for case in L.default_cases(tier, core.seed()):
+        st_, key, what, rp = L.judge_default_case(case, probe)
+        rep.count("default-lattice", 1, (case[0], L.spelling_class(case[1], L.TAKES_KW[case[1]]), case[2], case[3], case[5], st_))
+        rep.stat("default-lattice", "status:" + st_)
+        rep.stat("default-lattice", "placement:" + case[5])
+        rep.stat("default-lattice", "default-spelling:" + case[3])
+        if st_ == "fail":
+            findings.append((key, what, rp))
     # stream 2: every single-fault variant of a valid class statement, guards on and off
     for i in range(n_fault):
         tag = "f%d" % i
@@ -560,6 +606,8 @@ def run(rep, tier):
 
 
 def replay(obj):
+    if obj.get("lattice") == "default":
+        return L.replay_default(obj)
     prog = obj.get("program")
     if prog is None:
         print(obj.get("detail", "no program recorded"))
@@ -590,6 +638,8 @@ def replay(obj):
     rep = core.Report("C14", "quick")
     found = []
     inherited_clauses(random.Random(5), prog2, ns, D.field_ast_map(prog2, ns), rep, lambda k, w, d: found.append((k, w)), 6)
+    fm2 = D.field_ast_map(prog2, ns)
+    L.mro_clauses(prog2, ns, lambda k, w, d: found.append((k, w)), base_values(random.Random(5), prog2, ns, fm2))
     for k, w in found:
         print("implementation-side clause fails:", k, "|", w)
         bad = 1
